@@ -111,7 +111,8 @@ pub fn replay(family: &str, args: &[String]) -> i32 {
                 i += 1
             }
             "--timeout-ms" => {
-                timeout_ms = args[i + 1].parse().unwrap();
+                // never less than 15 s for one case: on a loaded machine a slow answer must not be taken for a hang
+                timeout_ms = args[i + 1].parse::<u64>().unwrap().max(15_000);
                 i += 1
             }
             "--worker" => {
@@ -169,6 +170,10 @@ pub fn replay(family: &str, args: &[String]) -> i32 {
                     }
                 }
                 if batch.is_empty() {
+                    break;
+                }
+                // enough is enough: after several hundred violations (each hang costs a full time-out) the verdict is clear
+                if agg.lock().unwrap().n_violations >= 400 {
                     break;
                 }
                 for rec in batch {
